@@ -1,6 +1,8 @@
 //! Connections are responsible for sending and receiving HTTP requests and responses
 //! over an arbitrary two-way stream of bytes.
 
+use std::sync::atomic::{AtomicBool, Ordering};
+use std::sync::Arc;
 use std::{fmt, future::Future, pin::Pin, task::Poll};
 
 use crate::BoxFuture;
@@ -86,6 +88,31 @@ where
 /// An HTTP connection.
 pub struct HttpConnection<B> {
     inner: InnerConnection<B>,
+
+    /// Set when an HTTP/1 request was abandoned (its response future dropped) before the
+    /// response arrived. hyper closes such a connection, but `is_ready` can still report
+    /// `true` until its connection task has noticed.
+    abandoned: Arc<AtomicBool>,
+}
+
+/// Marks the connection as abandoned if the request it guards is dropped before it completes.
+struct InFlight {
+    abandoned: Arc<AtomicBool>,
+    completed: bool,
+}
+
+impl InFlight {
+    fn complete(&mut self) {
+        self.completed = true;
+    }
+}
+
+impl Drop for InFlight {
+    fn drop(&mut self) {
+        if !self.completed {
+            self.abandoned.store(true, Ordering::Release);
+        }
+    }
 }
 
 impl<B> HttpConnection<B> {
@@ -93,6 +120,7 @@ impl<B> HttpConnection<B> {
     pub(super) fn h1(conn: hyper::client::conn::http1::SendRequest<B>) -> Self {
         HttpConnection {
             inner: InnerConnection::H1(conn),
+            abandoned: Arc::new(AtomicBool::new(false)),
         }
     }
 
@@ -100,6 +128,7 @@ impl<B> HttpConnection<B> {
     pub(super) fn h2(conn: hyper::client::conn::http2::SendRequest<B>) -> Self {
         HttpConnection {
             inner: InnerConnection::H2(conn),
+            abandoned: Arc::new(AtomicBool::new(false)),
         }
     }
 }
@@ -138,7 +167,16 @@ where
             }
             InnerConnection::H1(conn) => {
                 *request.version_mut() = http::Version::HTTP_11;
-                Box::pin(conn.send_request(request))
+                let mut in_flight = InFlight {
+                    abandoned: self.abandoned.clone(),
+                    completed: false,
+                };
+                let response = conn.send_request(request);
+                Box::pin(async move {
+                    let response = response.await;
+                    in_flight.complete();
+                    response
+                })
             }
         }
     }
@@ -171,7 +209,9 @@ where
     fn is_open(&self) -> bool {
         match &self.inner {
             InnerConnection::H2(ref conn) => conn.is_ready(),
-            InnerConnection::H1(ref conn) => conn.is_ready(),
+            InnerConnection::H1(ref conn) => {
+                conn.is_ready() && !self.abandoned.load(Ordering::Acquire)
+            }
         }
     }
 
@@ -188,6 +228,7 @@ where
         match &self.inner {
             InnerConnection::H2(conn) => Some(Self {
                 inner: InnerConnection::H2(conn.clone()),
+                abandoned: self.abandoned.clone(),
             }),
             InnerConnection::H1(_) => None,
         }
